@@ -810,6 +810,12 @@ class Sim:
             else:
                 node = int(arg)
             labels_max = int(tr.segmentation.max()) if self.with_seg else 0
+            if inv == "id_overflow":
+                if self.with_seg and np.iinfo(tr.segmentation.dtype).max < 2**31:
+                    # invalid request: a node id the label array's dtype cannot hold
+                    node = int(np.iinfo(tr.segmentation.dtype).max) + 1 + node % 1000
+                else:
+                    inv = None
             while node in g.nodes or (self.with_seg and node <= labels_max and (tr.segmentation == node).any()) or node == 0:
                 node += 1
         tid = self.pick_track(op["track"])
